@@ -48,6 +48,7 @@ P["C04"] = {
         K("c04.add.rg.1", "sq.rs", S + "c04_add_rg_1", "rely/guarantee: any invariant-respecting change of head/tail by other submitters/the kernel between the unlocked pre-check and the lock; guarantee: never writes an unconsumed entry [head,tail), invariant re-established (size 1)", ["io_uring::sq::Submissions::add"], kind="rely-guarantee"),
         K("c04.add.rg.2", "sq.rs", S + "c04_add_rg_2", "same, ring size 2", ["io_uring::sq::Submissions::add"], kind="rely-guarantee"),
         K("c04.add.rg.4", "sq.rs", S + "c04_add_rg_4", "same, ring size 4", ["io_uring::sq::Submissions::add"], kind="rely-guarantee", tier="thorough"),
+        VV("c04.ring_lemmas", "ring", "for EVERY power-of-two ring size and every u32 counter: slot index in range; counters < len apart never share a slot (also across the 2^32 wrap); tail -w head is the true count; +1 keeps it in step", ["(arithmetic used by) io_uring::sq::Submissions::add", "io_uring::Shared::unsubmitted_submissions"], ["lemma_slot_in_range", "lemma_slots_distinct", "lemma_wrapping_count", "lemma_advance"]),
     ],
 }
 
@@ -68,6 +69,7 @@ P["C05"] = {
         K("c05.poll.empty.1", "cq.rs", C + "c05_poll_empty_1", "empty queue, ring size 1: one kernel entry (min_complete 1, GETEVENTS), tail re-read, exactly the completions published during the wait are processed in order, ETIME/EINTR tolerated, hard errors returned with nothing consumed", ["io_uring::cq::Completions::poll", "io_uring::Shared::enter"]),
         K("c05.poll.empty.2", "cq.rs", C + "c05_poll_empty_2", "same, ring size 2", ["io_uring::cq::Completions::poll", "io_uring::Shared::enter"]),
         K("c05.poll.empty.4", "cq.rs", C + "c05_poll_empty_4", "same, ring size 4", ["io_uring::cq::Completions::poll", "io_uring::Shared::enter"], tier="thorough"),
+        VV("c05.ring_lemmas", "ring", "for EVERY power-of-two ring size: slot index in range; walking head..tail with wrapping increments visits exactly tail -w head distinct slots", ["(arithmetic used by) io_uring::cq::Completions::poll"], ["lemma_slot_in_range", "lemma_slots_distinct", "lemma_walk"]),
         K("c05.process.reserved", "cq.rs", C + "c05_process_reserved", "Completion::process: F_SKIP or user_data in 0..=3 (none/wake/cancel-ack with any result/close report) => returns before any pointer is formed from user_data, wakes nothing; all res/flags values", ["io_uring::cq::Completion::process"]),
         K("c05.process.dispatches_rest", "cq.rs", C + "c05_process_dispatches_rest", "Completion::process: every other completion reaches the per-operation dispatch exactly once (no operation completion is swallowed by the filter)", ["io_uring::cq::Completion::process"]),
     ],
@@ -136,6 +138,9 @@ P["C02"] = {
     "obligations": op_obl(["process.running", "update.single", "update.multi.live", "poll.done.ok", "poll.done.err", "poll.running.none", "poll.complete_panics", "poll_next.running", "poll_next.done"]) + [
         K("c05.process.reserved", "cq.rs", C + "c05_process_reserved", "bookkeeping/padding completions never reach an operation", ["io_uring::cq::Completion::process"]),
         K("c05.process.dispatches_rest", "cq.rs", C + "c05_process_dispatches_rest", "every other completion is dispatched exactly once", ["io_uring::cq::Completion::process"]),
+        VV("c02.multi.fifo", "multishot", "the real Multishot container (extracted verbatim): update appends exactly the new result at the back, next returns the oldest and leaves the rest in order, has_next <=> non-empty; UNBOUNDED queue length", ["io_uring::op::Multishot::update", "io_uring::op::Multishot::next", "io_uring::op::Multishot::has_next"], ["Multishot::update", "Multishot::next", "Multishot::has_next"], kind="contract"),
+        VV("c02.single.container", "multishot", "the real Singleshot container (extracted verbatim): update keeps the stored result on F_NOTIF and overwrites otherwise; next returns the stored result", ["io_uring::op::Singleshot::update", "io_uring::op::Singleshot::next"], ["Singleshot::update", "Singleshot::next"], kind="contract"),
+        VV("c02.fifo.lemma", "multishot", "composition: any interleaving of appends (kernel) and pops (consumer) delivers exactly the prefix of q0 ++ results, in order, and keeps exactly the rest", [], ["lemma_fifo_push", "lemma_fifo_pop"]),
     ],
 }
 P["C03"] = {
